@@ -374,12 +374,14 @@ HIST_RULE = ("each case is a seeded random history (pool of 1..3L contexts, 10-8
 
 CHECKS = {
     "C01": dict(
+        technique="runtime differential oracle: reference/OpenSSL digest of the model's byte stream for every completed job over seeded submit/flush histories on all 28 families x 3 routes, lane-magnitude probe, AddressSanitizer build",
         level="exploration", evaluations="completes", must_observe=["completes", "returned_by_other", "returned_by_flush", "reuses"],
         rule=HIST_RULE + "; evaluations = completed jobs whose digest was compared with the reference hash of the model's byte stream",
         assumptions=TRUST,
         tasks=lambda tier: hash_tasks("C01", 1500, 60000, 5, variants=("plain", "asan"))(tier) + pairs_tasks("C01") + (mix_tasks("C01", tier) if tier == "thorough" else []),
     ),
     "C06": dict(
+        technique='online history checker: sequential job-accounting model at the call boundary + manager count/owner invariants, lane-magnitude probe, AddressSanitizer build',
         level="exploration", evaluations="ops", must_observe=["completes", "flushes", "returned_by_other", "idle_returns"],
         rule=HIST_RULE + "; evaluations = library calls checked against the sequential job-accounting model; in addition a lane-relation probe runs on every SIMD (algorithm, family): for every ordered pair of lane positions (huge, shortest) a manager is filled (submit path) "
              "or filled but for one lane and flushed (flush path) with one job whose single submit is 2^31..2^32-1 bytes, a unique shortest job and distinct medium ones (the packed length words inside the "
@@ -388,12 +390,14 @@ CHECKS = {
         tasks=lambda tier: hash_tasks("C06", 1500, 60000, 8, variants=("plain", "asan"))(tier) + pairs_tasks("C06") + (mix_tasks("C06", tier) if tier == "thorough" else []),
     ),
     "C11": dict(
+        technique='byte-image comparison (manager, all contexts, buffers) across injected invalid submits + job model + digest oracle over the rest of the history',
         level="exploration", evaluations="rejects", must_observe=["rejects", "rejects_invalid_flags", "rejects_already_processing", "rejects_already_completed", "completes"],
         rule=HIST_RULE + "; evaluations = injected invalid submits, each compared byte-for-byte (manager, all contexts, buffers) against a snapshot taken just before the call",
         assumptions=TRUST,
         tasks=hash_tasks("C11", 1500, 60000, 22, variants=("plain", "asan")),
     ),
     "C02": dict(
+        technique='runtime differential oracle: SP 800-38D reference (bitwise GHASH) / OpenSSL vs every family and route, every length 0..1100 plus boundary and 512 MiB messages',
         level="exploration", evaluations="gcm_calls", must_observe=["gcm_calls", "cases_sse", "cases_avx_gen2", "cases_avx_gen4", "cases_vaes_avx512"],
         rule=("case c<=1100 uses plaintext length c exactly (every tail of the 8/16/48-block loops), later cases draw lengths around loop edges and up to 64 KiB "
               "(1 MiB in thorough); AAD length (c/5) mod 81 on every fifth case else boundary-biased up to 2 KiB; tag 8/12/16; random data/AAD/IV/tag alignment 0..63, "
@@ -406,6 +410,7 @@ CHECKS = {
         + [dict(engine="aesdiff", variant="plain", timeout=3000, args=["--prop", "C02", "--what", "gcmhuge", "--fam", fam, "--from", 0, "--count", 1, "--watchdog", 2900]) for fam in GCM_FAMS],
     ),
     "C07": dict(
+        technique='runtime differential oracle over update segmentations (carried-residue x piece-class coverage) vs the SP 800-38D reference',
         level="exploration", evaluations="gcm_update_calls", must_observe=["gcm_calls", "gcm_update_calls", "cases_sse", "cases_avx_gen2", "cases_avx_gen4", "cases_vaes_avx512"],
         rule=("as C02 but the data is fed through init/update*/finalize; partitions are generated in five styles (1-3 byte pieces with empty updates, "
               "pieces chosen relative to the carried residue r: <16-r, =16-r, >16-r, >>16-r, uniform, multiples of 16 +/- tail, mixed) and differ between the "
@@ -416,6 +421,7 @@ CHECKS = {
         tasks=aes_tasks("C07", "gcmstream", GCM_FAMS, 1500, 60000),
     ),
     "C03": dict(
+        technique='runtime differential oracle: IEEE 1619 reference / OpenSSL vs every family and route; PROT_NONE buffers for lengths below 16',
         level="exploration", evaluations="xts_calls", must_observe=["xts_calls", "xts_short_calls", "cases_sse", "cases_avx", "cases_vaes"],
         rule=("case c<=1100 uses data-unit length c exactly (0..15: both buffers point into PROT_NONE pages for the family/legacy entry points, isal_ must return CIPH_LEN "
               "and modify nothing; 16..1100: every tail with and without stealing), later cases around the 8/16-block loop edges, up to 64 KiB (2^24 and 2^24-1 in thorough); "
@@ -425,6 +431,7 @@ CHECKS = {
         tasks=aes_tasks("C03", "xts", ["sse", "avx", "vaes"], 1500, 40000),
     ),
     "C04": dict(
+        technique='runtime differential oracle: FIPS-197 key schedules and SP 800-38A CBC reference vs every family and route',
         level="exploration", evaluations=["cbc_calls", "keyexp_calls"], must_observe=["cbc_calls", "keyexp_calls", "cases_sse", "cases_avx", "cases_avx512_g2"],
         rule=("key expansion of random and constant-byte keys for 128/192/256 (+128_enc) on both families and both API routes, compared byte for byte with the FIPS-197 "
               "schedule and its equivalent-inverse decryption schedule; CBC with N = c blocks for c in 1..80 then lengths around the 8/16-block loop edges up to 64 KiB "
@@ -434,6 +441,7 @@ CHECKS = {
         tasks=aes_tasks("C04", "cbc", ["sse", "avx", "avx512_g2"], 1500, 40000),
     ),
     "C05": dict(
+        technique='runtime differential oracle: multi-hash definition built on reference SHA-1/SHA-256 vs every family, route and update segmentation; AddressSanitizer build',
         level="exploration", evaluations="mh_streams", must_observe=["mh_streams", "mh_update_calls"] + ["cases_" + f for f in MH_FAMS],
         rule=("case c<=2200 hashes a stream of exactly c bytes, later cases lengths 1024k-9..1024k+9, 1024k+1000..1023 (second padding block), random to 256 KiB "
               "(4 MiB in thorough); the stream is cut into update calls in five styles (one call, pieces chosen relative to the carried partial block: empty / under-fill / "
@@ -444,6 +452,7 @@ CHECKS = {
         tasks=mh_tasks("C05", ["mh_sha1", "mh_sha256"], MH_FAMS, 2700, 40000),
     ),
     "C10": dict(
+        technique='runtime differential oracle: reference multi-hash SHA-1 and reference MurmurHash3_x64_128 vs every family and route',
         level="exploration", evaluations="mh_streams", must_observe=["mh_streams", "mh_update_calls"] + ["cases_" + f for f in MH_FAMS],
         rule=("as C05 for the stitched mh_sha1_murmur3_x64_128: both outputs are compared, the SHA-1 side with the multi-hash reference and the murmur side with a "
               "reference MurmurHash3_x64_128 (h1=h2=seed) of the whole stream; seeds 0, 1, 2^64-1 and random; stream lengths cover every value of len mod 16 and len mod 1024"),
@@ -451,6 +460,7 @@ CHECKS = {
         tasks=mh_tasks("C10", ["murmur"], MH_FAMS, 2700, 40000),
     ),
     "C09": dict(
+        technique='runtime differential oracle: from-scratch evaluation of the table formula at every position vs the three scan kernels, forced through the dispatcher and called directly; pinned golden table',
         level="exploration", evaluations="rolling_run_calls", must_observe=["rolling_run_calls", "rolling_hits", "rolling_direct_scans", "mask_gen_calls", "cases_base", "cases_00", "cases_04"],
         rule=("case c uses window w = c mod 48 + 1; stream of up to 20000 (64 Ki in thorough) bytes of random / constant / 3-symbol / slowly changing content; mask with 0..16 "
               "random bits or from mask_gen, trigger a subset of mask or 0; the stream is consumed by run calls with max_len 0, 1, <w, =w, w+1, rest, random, resuming where the "
@@ -461,6 +471,7 @@ CHECKS = {
         tasks=mh_tasks("C09", ["rolling"], ["base", "00", "04"], 1500, 30000),
     ),
     "C08": dict(
+        technique='guard pages + read-only mappings + canaries around exact-size buffers, AddressSanitizer on the C layers, valgrind memcheck on exact-size heap blocks',
         level="exploration", evaluations=["guarded_calls", "ops"], must_observe=["guarded_calls", "fam_runs", "cbc_len0_calls", "ops"],
         rule=("every argument buffer is exactly as long as the API states and is placed at random end-flush / start-flush / mid (canary-filled slack) against PROT_NONE pages; "
               "inputs (data, AAD, 12-byte IV, tweak, keys, schedules, constant key data, rolling window) are mapped read-only during the call; zero-length buffers point at an "
@@ -474,6 +485,7 @@ CHECKS = {
         tasks=bounds_tasks,
     ),
     "C19": dict(
+        technique='register/stack trampoline with sentinels, canaries, non-default MXCSR/x87 control word and varying stack alignment around every ABI-bound entry point (set computed from nm)',
         level="exploration", evaluations="tramp_calls", must_observe=["tramp_calls", "scenarios"],
         rule=("every library call of a scenario is made through a trampoline on a private stack: sentinels in rbx, rbp, r12-r15, patterns in all other registers, "
               "non-default MXCSR rounding and x87 control word, canary words above the callee's stack arguments; after the call rsp, the six callee-saved registers, DF, "
@@ -487,6 +499,7 @@ CHECKS = {
         tasks=tramp_tasks("C19", "abi", TRAMP_GROUPS, 160, 4000, extra_fips=True), post=abi_post,
     ),
     "C14": dict(
+        technique='register/stack trampoline: scan of zmm0-31 and 64 KiB of dead stack for reference-computed secret blocks after every AES call',
         level="exploration", evaluations="tramp_calls", must_observe=["tramp_calls", "scenarios"],
         rule=("AES scenarios (GCM key setup/one-shot/nt/stream, XTS raw and expanded, CBC, key expansion; all families; family, isal_, legacy and dispatched-entry routes; 44/39/27 "
               "length classes) run through the trampoline with random keys; after every call all 32 vector registers (each 16-byte lane of the full 512 bits) and the 64 KiB below "
@@ -498,6 +511,7 @@ CHECKS = {
         + [dict(engine="trampeng", variant="noparam", args=["--prop", "C14", "--mode", "secrets", "--what", g, "--from", 0, "--count", 60 if tier == "quick" else 1500]) for g in ("gcm", "xts", "cbc")],
     ),
     "C20": dict(
+        technique='paired executions that differ only in hidden state (registers, flags, dead stack, uninitialised object memory, output prefill), valgrind memcheck uninitialised-value tracking',
         level="exploration", evaluations=["paired_scenarios", "paired_histories"], must_observe=["paired_scenarios", "paired_histories", "tramp_calls"],
         rule=("every scenario/history is executed three times with identical declared inputs and identical object addresses but different hidden state: "
               "A = all-zero, B = all-ones, C = seeded random patterns in (i) output-buffer prefill, (ii) manager/context/key-data/state memory before the API initialises it, "
@@ -512,6 +526,7 @@ CHECKS = {
                 args=["--prop", "C20", "--alg", alg, "--fam", "base,sse,avx,avx2", "--route", "fam,isal", "--uninit", 1, "--inject", 0, "--from", 0, "--count", 15 if tier == "quick" else 600, "--watchdog", 2900]) for alg in HASH_ALGS],
     ),
     "C15": dict(
+        technique='OpenSSL oracle over multi-GiB periodic streams (memfd mirror) with adversarial segmentations, state-advanced histories across the thresholds, lane-magnitude probe, long-life manager run',
         level="exploration", evaluations=["big_handbacks", "completes"], must_observe=["big_jobs_completed", "big_jobs_2^29", "big_jobs_2^32", "big_handbacks", "big_single_submits_ge_2^31", "big_zero_length_updates", "length_jumps"],
         rule=("per (algorithm, family) a manager is filled with lanes+1 jobs that all hash the same periodic multi-GiB stream (64 MiB memfd mirrored back to back) with different "
               "segmentations: a segment boundary at the threshold, 1/63/64 bytes below or above it, zero-length UPDATEs exactly at it, single submits of 2^32-1, 2^32-64, 2^31 bytes, "
@@ -525,6 +540,7 @@ CHECKS = {
                                                                                       ("md5", ["sse", "avx", "avx2", "avx512"]), ("sm3", ["avx2", "avx512"])) for f in fl] if tier == "thorough" else []),
     ),
     "C16": dict(
+        technique='exhaustive NULL-subset enumeration with PROT_NONE decoys, out-of-domain scalars with byte-image comparison, legacy vs isal_ differential',
         level="exploration", evaluations=["null_subset_calls", "bad_scalar_calls", "valid_calls", "legacy_comparisons"],
         must_observe=["null_subset_calls", "bad_scalar_calls", "valid_calls", "legacy_comparisons", "entries_described"],
         rule=("for each of the 69 argument-taking isal_ entry points (table checked against nm of the build; the 3 others take no arguments): (a) every non-empty subset of its pointer "
@@ -538,6 +554,7 @@ CHECKS = {
         tasks=params_tasks, post=isal_cover_post, exhaustive_key="null_subset_calls", exhaustive_over="the NULL subsets of the pointer arguments of every isal_ entry point (part a)",
     ),
     "C13": dict(
+        technique='fault enumeration: --wrap interception of the self-tests with injected verdicts x every exported entry point; dispatch-slot resolution as crypto-work monitor',
         level="fault_enumeration", evaluations=["fips_calls", "xts_key_pair_calls"], must_observe=["fips_calls", "xts_key_pair_calls", "entries_described"],
         level_text=("fault enumeration: the finite space (exported isal_ entry point) x (self-test state: failed / passed / not run with an injected failing verdict / not run with a passing "
                     "verdict) is enumerated completely, each cell with seeded random otherwise-valid arguments; XTS entries additionally with identical / last-byte-different / "
@@ -552,6 +569,7 @@ CHECKS = {
         post=isal_cover_post, exhaustive_key="fips_calls", exhaustive_over="(isal_ entry point) x (self-test state) cells",
     ),
     "C17": dict(
+        technique='trap-flag instruction-level thread scheduler (seeded random + exhaustive preemption-bounded schedules) on the real protocol code, spinning-barrier stress, ThreadSanitizer build, offline check of the per-run event log',
         level="exploration", evaluations=["schedules", "stress_rounds"], must_observe=["schedules", "systematic_schedules", "stress_rounds", "schedule_steps"],
         level_text=("exploration of thread schedules of the real protocol code: seeded random instruction-granular schedules, complete enumeration of all schedules with a bounded number of "
                     "preemptions at protocol instructions (a finite quotient, reported as exhaustive per configuration), and free-running stress; 'never waits forever' is decided as bounded progress"),
@@ -569,6 +587,7 @@ CHECKS = {
         tasks=c17_tasks, post=c17_post, exhaustive_key="systematic_complete", exhaustive_over="all schedules with the stated number of preemptions at protocol instructions, for the configurations listed under exhaustive_configs",
     ),
     "C18": dict(
+        technique='static-storage snapshot watch over all writable library sections, concurrent-vs-alone differential, first-call storms on re-armed dispatch slots, ThreadSanitizer build',
         level="exploration", evaluations=["concurrent_ops_compared", "concurrent_histories_compared", "storm_calls"],
         must_observe=["concurrent_ops_compared", "concurrent_histories_compared", "storm_calls", "storm_entries", "static_watch_sections_compared"],
         rule=("(a) static-storage watch: every writable input section the library's 230 objects contribute to the process (from the link map, about 220 sections, listed in the sample) is "
@@ -583,6 +602,7 @@ CHECKS = {
         tasks=c18_tasks,
     ),
     "C12": dict(
+        technique='virtual CPUID/XGETBV hook: enumeration of CPU/OS configurations with binding observation, plus single-step (trap flag) instruction tracer classified by ISA extension',
         level="exploration", evaluations="bindings_observed", must_observe=["bindings_observed", "configurations", "traced_runs", "trace_steps", "rebinding_probes"],
         level_text=("runtime observation of the real resolvers under a virtual CPU (hook ISAL_CRYPTO_VERIF): the configuration space is enumerated completely (quick: a stated quotient; thorough: every "
                     "consistent assignment), the instruction requirements of each bound family are measured by single-stepping its execution on this host"),
